@@ -182,7 +182,21 @@ CaseResult one_round(Tape &t, int round)
   std::string fork_report = root + "/fork-fds";
   auto fds_before = snapshot_self_fds();
   reproc_t *p = reproc_new();
+  // In one launch of seven the forked child cannot learn the descriptor limit (getrlimit fails there, as under a
+  // seccomp policy): refusing to start is fine, starting is fine - but then the program still sees only 0-2 and the exit handle.
+  bool rlimit_fault = !fork_round && (limit + placed) % 7 == 0;
+  if (rlimit_fault) {
+    vs_fault vf;
+    memset(&vf, 0, sizeof(vf));
+    vf.side = VS_CHILD;
+    vf.index = -1;  // the first getrlimit on the child's side, wherever it comes in the call sequence
+    vf.fn = VS_GETRLIMIT;
+    vf.kind = VS_FK_ERRNO;
+    vf.err = EPERM;
+    vs_add_fault(vf);
+  }
   int r = reproc_start(p, argv, b.opt);
+  if (rlimit_fault) vs_clear_faults();
   if (fork_round && r == 0) {
     // child side
     std::string out;
@@ -221,9 +235,12 @@ CaseResult one_round(Tape &t, int round)
                      .kv("start_result", r)
                      .str();
 
+  if (rlimit_fault) res.cls(r < 0 ? "child-cannot-read-limit:start-refused" : "child-cannot-read-limit:started");
   if (r < 0) {
     if (r == -EMFILE) {
       res.inconclusive("start ran out of descriptors under the generated limit");
+    } else if (rlimit_fault) {
+      // refused: nothing was started, nothing can have been inherited
     } else {
       res.fail("start-failed", "reproc_start failed with " + std::to_string(r) + " (" + strerror(-r) + ")");
     }
